@@ -233,7 +233,7 @@ func gateRun(o *kit.Out, idx int) bool {
 	hook.Set(func(p string) {
 		points.Store(p, true)
 		switch {
-		case strings.HasSuffix(p, ":r.runFunction"):
+		case strings.HasSuffix(p, ".runFunction"):
 			if armed.Load() && parked.CompareAndSwap(false, true) {
 				select {
 				case <-releaseRunner:
